@@ -1,25 +1,34 @@
 --------------------------- MODULE TextLayoutTrace ---------------------------
-(* C03 trace validation.  One trace = one text (sequence of character class ids) in one encoding  *)
-(* mode, given to urwid as str or as encoded bytes; mm = width of the narrowest ellipsis mark of  *)
-(* the encoding.  One event = one (width, wrap, align): the layout structure returned by the real *)
+(* C03 trace validation.  One trace = one Text widget in one encoding mode, its text (sequence of  *)
+(* character class ids) given to urwid as str or as encoded bytes; mm = width of the narrowest     *)
+(* ellipsis mark of the encoding.  One event = one mutator (op: "align", "wrap", "layout", "text" *)
+(* or "none") followed by the queries at one width: the layout structure returned by the real     *)
 (* StandardTextLayout.layout with byte offsets converted to character indices (split = 1 when an  *)
 (* offset fell inside a character), the rows rendered by Text.render as id sequences, Text.rows   *)
-(* and the row count of Text.pack, and the exception if any call raised.  Every verdict is one    *)
-(* named clause of the property, evaluated on the implementation's own layout - the reference     *)
-(* layout of TextLayoutOps is never consulted here.                                               *)
+(* and the row count of Text.pack, and the exception if any call raised.  The specification keeps  *)
+(* the widget's state ws (alignment, wrap mode, text in force) through the mutators               *)
+(* (TextLayoutOps.WidgetApply) and judges every event against THAT state: a canvas or a row count  *)
+(* that still belongs to an earlier mode or text is rejected by the clause it breaks.  Every      *)
+(* verdict is one named clause of the property, evaluated on the implementation's own layout - the *)
+(* reference layout of TextLayoutOps is never consulted here.                                      *)
 EXTENDS TextLayoutOps, Json, IOUtils, TLC
 
 Traces == JsonDeserialize(IOEnv.TRACE_FILE)
-VARIABLES tid, l, ok, why
-vars == <<tid, l, ok, why>>
+VARIABLES tid, l, ok, why, ws
+vars == <<tid, l, ok, why, ws>>
 
-Init == tid \in 1..Len(Traces) /\ l = 0 /\ ok = TRUE /\ why = "-"
+InitWs(tr) == [align |-> tr.align0, wrap |-> tr.wrap0, text |-> tr.text]
+Init == tid \in 1..Len(Traces) /\ l = 0 /\ ok = TRUE /\ why = "-" /\ ws = InitWs(Traces[tid])
 
 RowsKnown(rend) == \A k \in 1..Len(rend) : KnownIds(rend[k])
 
-Verdict(tr, e) ==
-  LET t == tr.text  w == e.w  lay == e.lay IN
+\* the arguments an event's mutator was called with (only the fields its op uses are read)
+After(s, e) == WidgetApply(s, e.op, e.align, e.wrap, IF e.op = "text" THEN e.text ELSE <<>>)
+
+Verdict(tr, e, s) ==
+  LET t == s.text  w == e.w  lay == e.lay  wrap == s.wrap  align == s.align IN
   IF e.exc # "" THEN (IF Undisplayable(t, w) THEN "undisplayable_gives_empty_line_not_error" ELSE "lines_are_laid_out_without_error")
+  ELSE IF "got" \in DOMAIN e /\ ~ModesReported(s, e.got) THEN "modes_in_force_are_the_modes_set_last"
   ELSE IF e.split = 1 THEN "offsets_on_character_boundaries"
   ELSE IF lay = EmptyLayout
        THEN (IF ~UndisplayableIsEmptyLine(t, w, lay) THEN "empty_line_only_for_undisplayable_text"
@@ -28,17 +37,19 @@ Verdict(tr, e) ==
              ELSE "-")
   ELSE IF ~ShapeOK(t, lay) \/ ~RowsKnown(e.rend) THEN "layout_structure_as_documented"
   ELSE IF ~OrderOnce(t, lay) THEN "characters_in_order_none_twice"
-  ELSE IF ~OmittedOnlyAllowed(t, w, e.wrap, tr.mm, lay) THEN "only_allowed_characters_left_out"
-  ELSE IF ~FitsLayout(t, w, e.wrap, lay) \/ ~FitsRows(w, e.rend) THEN "every_line_fits_in_width"
-  ELSE IF e.wrap = "any" /\ ~AnyIsGreedy(t, w, lay) THEN "any_fills_line_as_far_as_next_character_allows"
-  ELSE IF e.wrap = "space" /\ ~SpaceBreaksAtSpaces(t, w, lay) THEN "space_breaks_only_at_spaces_when_words_fit"
-  ELSE IF ~AlignPad(t, w, e.align, lay) THEN "alignment_pads_zero_half_or_all_spare_columns"
+  ELSE IF ~OmittedOnlyAllowed(t, w, wrap, tr.mm, lay) THEN "only_allowed_characters_left_out"
+  ELSE IF ~FitsLayout(t, w, wrap, lay) \/ ~FitsRows(w, e.rend) THEN "every_line_fits_in_width"
+  ELSE IF wrap = "any" /\ ~AnyIsGreedy(t, w, lay) THEN "any_fills_line_as_far_as_next_character_allows"
+  ELSE IF wrap = "space" /\ ~SpaceBreaksAtSpaces(t, w, lay) THEN "space_breaks_only_at_spaces_when_words_fit"
+  ELSE IF ~AlignPad(t, w, align, lay) THEN "alignment_pads_zero_half_or_all_spare_columns"
   ELSE IF ~RenderShowsLayout(t, w, lay, e.rend) THEN "rendered_rows_present_the_laid_out_lines"
   ELSE IF ~RowsEqualLines(e.rows, e.prows, e.rend) THEN "row_count_equals_rendered_lines"
   ELSE "-"
 
 Step == /\ ok /\ l < Len(Traces[tid].ev) /\ l' = l + 1 /\ tid' = tid
-        /\ LET v == Verdict(Traces[tid], Traces[tid].ev[l + 1]) IN why' = v /\ ok' = (v = "-")
+        /\ \E s \in {After(ws, Traces[tid].ev[l + 1])} :
+             /\ ws' = s
+             /\ LET v == Verdict(Traces[tid], Traces[tid].ev[l + 1], s) IN why' = v /\ ok' = (v = "-")
 Spec == Init /\ [][Step]_vars
 Report == ok \/ PrintT(<<"REJECT", tid, l, why>>)
 =============================================================================
